@@ -1084,7 +1084,7 @@ func init() {
 				c16Sched(c, cs, true)
 			}
 		},
-		Post: func(m *mc.Master) { m.RacePass("phase") },
+		Post: func(m *mc.Master) { m.RacePass("phase"); m.RacePass("first/phase") },
 		Vacuity: func(tier string, t *mc.Totals) error {
 			if t.Extra["executions_sched_cpus3"] < 50 {
 				return fmt.Errorf("too few schedules explored: %v", t.Extra)
